@@ -10,6 +10,9 @@ CD7FF   == <<237, 159, 191>>           \* U+D7FF (lead byte ED)
 Alpha   == {CA, CNT, C0800, CCRAB, <<0>>} \cup (IF Wide THEN {C07FF, CFFFF, C10FFFF, CD7FF, CSQRT} ELSE {})
 MCStrs  == StrsUpTo(Alpha, MaxChars)
 
+\* strings longer than 256 bytes made of few (wide) characters: the offsets of the last characters no longer fit a u8
+LongStrs == {RepSeq(CCRAB, 64) \o CNT \o CA, RepSeq(C0800, 85) \o CA \o CNT}
+
 \* complete sweeps at the specification level (every scalar value)
 ASSUME \A c \in 0..1114111 :
           IsScalar(c) => /\ WellFormedChar(Encode(c)) /\ DecodeSeq(Encode(c)) = c /\ DecodeImpl(Encode(c)) = c
